@@ -26,11 +26,14 @@ structure CQuery where
 def CQuery.description (q : CQuery) : List (String × Ty) :=
   q.targets.filterMap (fun t => t.name.map (fun n => (n, t.expr.ty)))
 
-/-- indexes of targets with a non-empty name (`if c_target.name`) -/
-def resultIndexes (ts : List CTarget) : List Nat :=
-  (List.range ts.length).filter (fun i => match ts[i]? with
-    | some t => (match t.name with | some n => n != "" | none => false)
-    | none => false)
+/-- indexes of targets with a non-empty name (`if c_target.name`), counting from `i` -/
+def visibleIdx : List CTarget → Nat → List Nat
+  | [], _ => []
+  | t :: ts, i =>
+    if (match t.name with | some n => n != "" | none => false) then i :: visibleIdx ts (i + 1)
+    else visibleIdx ts (i + 1)
+
+def resultIndexes (ts : List CTarget) : List Nat := visibleIdx ts 0
 
 /-! ### WHERE and the non-aggregate row loop -/
 
@@ -304,14 +307,31 @@ def sortable (spec : List (Nat × Bool)) (rows : List Row) : Bool :=
     let classes := (rows.map (fun r => classRank (r.getD k.1 .null))).filter (· != 0)
     rows.length ≤ 1 || (classes.all (fun c => c != 4 && c == classes.headD c)))
 
+/-- ORDER BY applied to the full rows (hidden keys included) -/
+def orderedRows (q : CQuery) (rows : List Row) : List Row :=
+  match q.orderSpec with | some spec => orderBy spec rows | none => rows
+
+/-- then the projection to the visible columns -/
+def projectedRows (q : CQuery) (rows : List Row) : List Row :=
+  (orderedRows q rows).map (project (resultIndexes q.targets))
+
+/-- then DISTINCT, then LIMIT -/
+def finishRows (q : CQuery) (rows : List Row) : List Row :=
+  let d := if q.distinct then uniquify (projectedRows q rows) else projectedRows q rows
+  match q.limit with | some n => d.take n | none => d
+
+/-- ORDER BY would compare values of different classes -/
+def unsortable (q : CQuery) (rows : List Row) : Bool :=
+  match q.orderSpec with | some spec => !sortable spec rows | none => false
+
+/-- DISTINCT would hash an unhashable value -/
+def unhashableDistinct (q : CQuery) (rows : List Row) : Bool :=
+  q.distinct && !((projectedRows q rows).all (fun r => r.all hashable))
+
 def postProcess (q : CQuery) (rows : List Row) : Except String (List Row) :=
-  if (match q.orderSpec with | some spec => !sortable spec rows | none => false) then .error "TypeError" else
-  let rows := match q.orderSpec with | some spec => orderBy spec rows | none => rows
-  let rows := rows.map (project (resultIndexes q.targets))
-  if q.distinct && !(rows.all (fun r => r.all hashable)) then .error "TypeError" else
-  let rows := if q.distinct then uniquify rows else rows
-  let rows := match q.limit with | some n => rows.take n | none => rows
-  .ok rows
+  if unsortable q rows then .error "TypeError"
+  else if unhashableDistinct q rows then .error "TypeError"
+  else .ok (finishRows q rows)
 
 /-- `execute_select` -/
 def execSelect (q : CQuery) : Except String (List (String × Ty) × List Row) :=
